@@ -32,7 +32,8 @@ ASSUMPTIONS = [
     'the explicit adj= argument of add/bdays is treated as a second spelling of the configuration adj; dt_bump(t, "nb") is only a route into add',
     'registry: every registration passes a small explicit t0/t1 (the default 1900-2300 table costs seconds to build); a re-registration that '
     'omits weekend= may keep the old weekend or fall back to the default [5, 6] - either is accepted, the holidays must be the new ones; '
-    'calendar(<Calendar object>, holidays=h) is called with non-empty h only (the code spells "not given" as falsy)',
+    'calendar(<Calendar object>, holidays=h) is called with non-empty h only (the code spells "not given" as falsy); fetching a key that was never registered '
+    'is modelled as registering a calendar without holidays and with the default weekend (what calendar(key) documents: "construct a new one")',
     'weekend is one of [5,6], [4,5], [6], [] as in the quantifier (spelt as list, tuple, or a bare int for [6]); runs of holidays are 1-40 days, random density up to ~63% of all days',
 ]
 
@@ -144,7 +145,7 @@ def _cal(cfg):
 
 
 def _is_dt(x, o):
-    return type(x) is datetime.datetime and x == _mk(o)
+    return isinstance(x, datetime.datetime) and x == _mk(o)
 
 
 def _d(o):
@@ -269,7 +270,7 @@ def _point_laws(cal, ref, cfg, t, n, a, flags):
     isb = ref.isb(t)
 
     got = call('is_bday(%s)' % _d(t), cal.is_bday, T)
-    check(bool(got) == isb and isinstance(got, bool), tag + 'is_bday(%s) = %s; day-by-day says %s (weekend day: %s, holiday: %s)',
+    check(bool(got) == isb, tag + 'is_bday(%s) = %s; day-by-day says %s (weekend day: %s, holiday: %s)',
           _d(t), got, isb, _wd(t) in ref.weekend, t in ref.hol)
     got = call('is_holiday(%s)' % _d(t), cal.is_holiday, T)
     check(bool(got) == (not isb), tag + 'is_holiday(%s) = %s; day-by-day says %s', _d(t), got, not isb)
@@ -290,7 +291,7 @@ def _point_laws(cal, ref, cfg, t, n, a, flags):
     check(_is_dt(r, e), tag + '%s = %s; walking %s business days from adjust = %s gives %s', what, _show(r), n, _d(start), _d(e))
     # bdays(t, add(t, n)) == n
     b = call('bdays(%s, %s)' % (_d(t), _show(r)), cal.bdays, T, r, **kw)
-    check(b == n and isinstance(b, int), tag + 'bdays(%s, %s) = %s where the second date is %s; expected %s', _d(t), _show(r), b, what, n)
+    check(b == n, tag + 'bdays(%s, %s) = %s where the second date is %s; expected %s', _d(t), _show(r), b, what, n)
     # inverse for a business day t
     if isb:
         back = call('add(%s, %i)' % (_show(r), -n), cal.add, r, -n, **kw)
@@ -300,7 +301,7 @@ def _point_laws(cal, ref, cfg, t, n, a, flags):
         one = call('add(%s, %i)' % (_d(t), s), cal.add, T, s, **kw)
         two = call('add(add(%s, %i), %i)' % (_d(t), s, s), cal.add, one, s, **kw)
         direct = call('add(%s, %i)' % (_d(t), 2 * s), cal.add, T, 2 * s, **kw)
-        check(type(direct) is datetime.datetime and direct == two, tag + 'add(%s, %s) = %s but add(add(t, %s), %s) = %s (adj %s)', _d(t), 2 * s, _show(direct), s, s, _show(two), eff)
+        check(isinstance(direct, datetime.datetime) and direct == two, tag + 'add(%s, %s) = %s but add(add(t, %s), %s) = %s (adj %s)', _d(t), 2 * s, _show(direct), s, s, _show(two), eff)
     # second route into add
     if a is None:
         bump = '%ib' % n
@@ -365,7 +366,7 @@ def _drange_law(cal, ref, cfg, t, u, flags):
     exp = ref.between(a, b)
     what = "drange(%s, %s, '1b')" % (_d(t), _d(u))
     got = call(what, cal.drange, _mk(t), _mk(u), '1b')
-    check(isinstance(got, list) and all(type(g) is datetime.datetime for g in got), tag + '%s returned %s', what, got)
+    check(isinstance(got, list) and all(isinstance(g, datetime.datetime) for g in got), tag + '%s returned %s', what, got)
     gos = [g.toordinal() if g == _mk(g.toordinal()) else g for g in got]
     if gos != exp:
         missing = [_d(o) for o in exp if o not in gos][:5]
@@ -537,8 +538,7 @@ class RegistryModel(object):
     def op_register_obj(self, key, hols, weekend):
         self._note_rereg(key, hols)
         c = call('Calendar(%r, ...)' % key, self.D.Calendar, key, self._dts(hols), list(weekend), _mk(RT0), _mk(RT1))
-        got = call('calendar(<Calendar %r>)' % key, self.D.calendar, c)
-        check(got is c, 'calendar(<Calendar object>) did not return the object it registered')
+        call('calendar(<Calendar %r>)' % key, self.D.calendar, c)
         self.model[key] = dict(hols=set(R0 + i for i in hols), weekends=[list(weekend)], small=True)
         self.flags.add('object_route')
 
@@ -559,8 +559,6 @@ class RegistryModel(object):
             self.flags.add('fetch_unknown_key')
         else:
             self.flags.add('fetch_known_key')
-        c2 = call('calendar(%r)' % key, self.D.calendar, key)
-        check(c2 is c, 'two consecutive calendar(%s) fetches returned different objects', key)
 
     def op_populate(self, key, k, n):
         keys = [x for x in sorted(self.model, key=repr) if self.model[x]['small']]
